@@ -5,6 +5,7 @@ package core
 import (
 	"fmt"
 	"sort"
+	"strings"
 	"testing"
 	"time"
 
@@ -46,7 +47,9 @@ type c04Msg struct {
 }
 
 type c04Step struct {
-	Kind int   `json:"k"` // 0 gossip pool[I], 1 NotifyJoin member I, 2 NotifyLeave member I, 3 push/pull built from pool[Sel...]
+	// 0 gossip pool[I], 1 NotifyJoin member I, 2 NotifyLeave member I, 3 push/pull built from pool[Sel...],
+	// 4 pool[I] handed to the node by three goroutines at once (memberlist handles packets concurrently)
+	Kind int   `json:"k"`
 	I    int   `json:"i"`
 	Sel  []int `json:"sel,omitempty"`
 	Join bool  `json:"join,omitempty"`
@@ -61,7 +64,7 @@ type c04Case struct {
 var c04Member = []string{"n0", "m1", "m2", "m3", "ghost"}
 
 func genC04(t *rapid.T) c04Case {
-	c := c04Case{Buf: rapid.SampledFrom([]int{4, 16, 512}).Draw(t, "buf")}
+	c := c04Case{Buf: rapid.SampledFrom([]int{1, 2, 4, 4, 16, 512}).Draw(t, "buf")}
 	np := rapid.IntRange(3, 10).Draw(t, "pool")
 	ltGen := rapid.OneOf(rapid.Uint64Range(0, 6), rapid.Uint64Range(0, 6), rapid.Uint64Range(0, 6), rapid.SampledFrom([]uint64{40, 1 << 40, maxLT - 5}))
 	for i := 0; i < np; i++ {
@@ -96,9 +99,9 @@ func genC04(t *rapid.T) c04Case {
 	}
 	ns := rapid.IntRange(4, 40).Draw(t, "steps")
 	for i := 0; i < ns; i++ {
-		st := c04Step{Kind: rapid.SampledFrom([]int{0, 0, 0, 0, 0, 0, 1, 1, 2, 3, 3}).Draw(t, "step")}
+		st := c04Step{Kind: rapid.SampledFrom([]int{0, 0, 0, 0, 0, 0, 1, 1, 2, 3, 3, 4}).Draw(t, "step")}
 		switch st.Kind {
-		case 0:
+		case 0, 4:
 			st.I = rapid.IntRange(0, np-1).Draw(t, "i")
 		case 1, 2:
 			st.I = rapid.IntRange(1, 3).Draw(t, "member")
@@ -111,15 +114,12 @@ func genC04(t *rapid.T) c04Case {
 	return c
 }
 
-// c04Norm keeps join intents about self out of the pool: a refutation the
-// node originates may be byte-equal to such a message, and the queues cannot
-// tell an origination from a re-broadcast.
-func c04Norm(m c04Msg) c04Msg {
-	if m.Kind == 0 && m.M%len(c04Member) == 0 {
-		m.M = 4
-	}
-	return m
-}
+// c04Norm is the identity now. (It used to keep join intents about self out of
+// the pool, because a refutation the node originates may be byte-equal to such
+// a message; the body now tells originations from re-broadcasts by waiting, at
+// the end of every step, until every refutation the node has announced in its
+// log has reached the queue.)
+func c04Norm(m c04Msg) c04Msg { return m }
 
 func c04Encode(m c04Msg) []byte {
 	m = c04Norm(m)
@@ -199,6 +199,10 @@ func bodyC04(c c04Case, x *vkit.Ctx) {
 		}
 		return out
 	}
+	// The node announces every refutation in its log before it starts the
+	// goroutine that queues the refuting join; counting those lines tells how
+	// many originated self joins are due.
+	refuteLogs := func() int { return strings.Count(n.Log.String(), "Refuting an older leave intent") }
 	isSelfJoin := func(e string) bool {
 		if len(e) == 0 || e[0] != serf.VerifMessageJoinType {
 			return false
@@ -233,6 +237,11 @@ func bodyC04(c c04Case, x *vkit.Ctx) {
 	prevQ := readQueues()
 	prevMembers := memberSet()
 	redelivered, redeliveredAfterRebro, merges, erased, refutes := 0, 0, 0, 0, 0
+	selfJoinRebro, selfJoinInjected, concurrent := 0, 0, 0
+	// unloggedOrigination: a self join appeared that is neither a re-broadcast
+	// nor announced in the log; from then on additions of self joins cannot be
+	// attributed and are not judged (never on the tree as it is).
+	unloggedOrigination := false
 	seenInput := map[string]bool{}
 	rebroKinds := map[int]bool{}
 
@@ -263,7 +272,29 @@ func bodyC04(c c04Case, x *vkit.Ctx) {
 				}
 			}
 			seenInput[injected] = true
+			if isSelfJoin(injected) {
+				selfJoinInjected++
+			}
 			n.Delegate.NotifyMsg(b)
+		case 4:
+			m := c04Norm(c.Msgs[st.I%len(c.Msgs)])
+			b := c04Encode(m)
+			injected = string(b)
+			what = fmt.Sprintf("3x concurrent gossip %s %+v", c04KindName[m.Kind], m)
+			if seenInput[injected] {
+				redelivered++
+				if rebro[injected] > 0 {
+					redeliveredAfterRebro++
+				}
+			}
+			redelivered += 2
+			seenInput[injected] = true
+			if isSelfJoin(injected) {
+				selfJoinInjected++
+			}
+			concurrent++
+			copies := [][]byte{append([]byte(nil), b...), append([]byte(nil), b...), append([]byte(nil), b...)}
+			volley(3, func(i int) { n.Delegate.NotifyMsg(copies[i]) })
 		case 1, 2:
 			mi := 1 + (st.I+2)%3
 			name := c04Member[mi]
@@ -330,15 +361,48 @@ func bodyC04(c c04Case, x *vkit.Ctx) {
 		}
 		poll(n, drop)
 
-		q := readQueues()
+		// Wait until every refutation announced so far has queued its join: then
+		// no origination is in flight when the next step starts, and whatever a
+		// step that injects a join about self adds to the queue is a re-broadcast.
+		var q map[string]int
+		deadline, spins := time.Now().Add(waitCap), 0
+		for {
+			q = readQueues()
+			queued := 0
+			for e, cnt := range q {
+				if isSelfJoin(e) {
+					queued += cnt
+				}
+			}
+			inj := 0
+			if isSelfJoin(injected) {
+				inj = max(q[injected]-prevQ[injected], 0)
+			}
+			orig, due := queued-selfJoinRebro-inj, refuteLogs()
+			if orig > due {
+				unloggedOrigination = true
+			}
+			if orig >= due {
+				break
+			}
+			if time.Now().After(deadline) {
+				x.Inconclusive("a refutation announced in the log has not queued its join")
+				return
+			}
+			spin(&spins)
+		}
+		erasedInStep := map[string]bool{}
 		for e, cnt := range q {
 			added := cnt - prevQ[e]
 			if added <= 0 {
 				continue
 			}
-			if isSelfJoin(e) && e != injected {
-				refutes += added // an origination (refutation of a claim about self), possibly from an earlier step
+			if isSelfJoin(e) && (e != injected || unloggedOrigination) {
+				refutes += added // an origination (refutation of a claim about self)
 				continue
+			}
+			if isSelfJoin(e) {
+				selfJoinRebro += added
 			}
 			switch {
 			case st.Kind == 3:
@@ -347,6 +411,11 @@ func bodyC04(c c04Case, x *vkit.Ctx) {
 			case e != injected:
 				x.Violationf("foreign-broadcast-queued", "step %d (%s): %d new queue entr(ies) %x that are neither the received message nor a join about self", si, what, added, e)
 				return
+			case st.Kind == 4 && added == 2 && rebro[e] == 0 && aboutMember[e] != "" && prevMembers[aboutMember[e]] && !memberSet()[aboutMember[e]]:
+				// Concurrent copies of a leave with prune: the first one erases the
+				// member, and for the forgotten member the next copy starts a new
+				// retention (see the assumptions) and is re-broadcast once more.
+				erasedInStep[e] = true
 			case added > 1 || rebro[e] > 0:
 				x.Violationf(c04KindName[kindOf[e]]+"-rebroadcast-again",
 					"step %d (%s): the same message was queued for re-broadcast again (%d time(s) before, %d now; %d copies in the queues) while still retained",
@@ -394,6 +463,18 @@ func bodyC04(c c04Case, x *vkit.Ctx) {
 	}
 	if refutes > 0 {
 		x.Label("self-refutation")
+	}
+	if selfJoinInjected > 0 {
+		x.Label("join-intent-about-self-by-gossip")
+	}
+	if selfJoinRebro > 0 {
+		x.Label("rebroadcast:join-intent-about-self")
+	}
+	if concurrent > 0 {
+		x.Label("concurrent-duplicates")
+	}
+	if unloggedOrigination {
+		x.Label("unlogged-self-join-origination")
 	}
 	x.NonTrivial(redeliveredAfterRebro > 0)
 }
